@@ -192,28 +192,25 @@ func (g *Generator) generateMockFieldAssignments(
 		// Generate assignment based on field type
 		switch field.Desc.Kind() {
 		case protoreflect.StringKind:
-			gf.P(
-				varName,
-				".",
-				fieldName,
-				" = selectStringExample(\"",
-				fieldPath,
-				"\", ",
-				g.getDefaultGenerator(field),
-				")",
-			)
+			g.emitMockScalarAssignment(gf, field, varName, "string", "String",
+				"selectStringExample(\"", fieldPath, "\", ", g.getDefaultGenerator(field), ")")
 		case protoreflect.Int32Kind:
 			// selectIntExample returns int64
-			gf.P(varName, ".", fieldName, " = int32(selectIntExample(\"", fieldPath, "\", ", g.getDefaultValue(field), "))")
+			g.emitMockScalarAssignment(gf, field, varName, "int32", "Int32",
+				"int32(selectIntExample(\"", fieldPath, "\", ", g.getDefaultValue(field), "))")
 		case protoreflect.Int64Kind:
-			gf.P(varName, ".", fieldName, " = selectIntExample(\"", fieldPath, "\", ", g.getDefaultValue(field), ")")
+			g.emitMockScalarAssignment(gf, field, varName, "int64", "Int64",
+				"selectIntExample(\"", fieldPath, "\", ", g.getDefaultValue(field), ")")
 		case protoreflect.BoolKind:
-			gf.P(varName, ".", fieldName, " = selectBoolExample(\"", fieldPath, "\", ", g.getDefaultValue(field), ")")
+			g.emitMockScalarAssignment(gf, field, varName, "bool", "Bool",
+				"selectBoolExample(\"", fieldPath, "\", ", g.getDefaultValue(field), ")")
 		case protoreflect.FloatKind:
 			// selectFloatExample returns float64
-			gf.P(varName, ".", fieldName, " = float32(selectFloatExample(\"", fieldPath, "\", ", g.getDefaultValue(field), "))")
+			g.emitMockScalarAssignment(gf, field, varName, "float32", "Float32",
+				"float32(selectFloatExample(\"", fieldPath, "\", ", g.getDefaultValue(field), "))")
 		case protoreflect.DoubleKind:
-			gf.P(varName, ".", fieldName, " = selectFloatExample(\"", fieldPath, "\", ", g.getDefaultValue(field), ")")
+			g.emitMockScalarAssignment(gf, field, varName, "float64", "Float64",
+				"selectFloatExample(\"", fieldPath, "\", ", g.getDefaultValue(field), ")")
 		case protoreflect.MessageKind:
 			switch {
 			case field.Desc.IsMap():
@@ -241,6 +238,30 @@ func (g *Generator) generateMockFieldAssignments(
 			gf.P("// TODO: Handle field ", fieldName, " of type ", field.Desc.Kind())
 		}
 	}
+}
+
+// emitMockScalarAssignment assigns an example expression of Go type goType to a scalar field,
+// in the shape the field has in the generated struct: T, []T (repeated) or *T (proto3 optional).
+func (g *Generator) emitMockScalarAssignment(
+	gf *protogen.GeneratedFile,
+	field *protogen.Field,
+	varName, goType, protoHelper string,
+	expr ...any,
+) {
+	line := []any{varName, ".", field.GoName, " = "}
+	switch {
+	case field.Desc.IsList():
+		line = append(line, "[]", goType, "{")
+		line = append(line, expr...)
+		line = append(line, "}")
+	case field.Desc.HasOptionalKeyword():
+		line = append(line, protogen.GoImportPath("google.golang.org/protobuf/proto").Ident(protoHelper), "(")
+		line = append(line, expr...)
+		line = append(line, ")")
+	default:
+		line = append(line, expr...)
+	}
+	gf.P(line...)
 }
 
 // generateMockMapFieldAssignment generates code to populate a map field with sample data.
